@@ -27,6 +27,9 @@ InSub == {[shape |-> "insub", neg |-> n, inner |-> i, where |-> w, tgt |-> "star
             n \in BOOLEAN, i \in {"none", "c=1", "c-null"}, w \in {"none", "b=1"}, o \in {"none", "b"}, l \in {<<"none", "none">>, <<"1", "none">>}}
 SetOp == {[shape |-> "setop", op |-> o, lw |-> lw, rw |-> rw] :
             o \in {"union", "union all", "intersect", "except"}, lw \in {"none", "b=1"}, rw \in {"none", "c=1"}}
+\* chains of two set operations over three tables of two integrations (left-associative), every pair of kinds and ALL flags
+SetOp3 == {[shape |-> "setop3", op1 |-> o1, op2 |-> o2] :
+             o1 \in {"union", "union all", "intersect", "except"}, o2 \in {"union", "union all", "intersect", "except"}}
 Cte == {[shape |-> "cte", kind |-> k, where |-> w, inner |-> i] : k \in {"inner", "left"}, w \in {"none", "t1b=1", "cc=1"}, i \in {"none", "c=1"}}
 \* one table of an integration that is served through an API handler (class_type = api): the planner sends targets, WHERE,
 \* ORDER BY and LIMIT to the handler and applies the rest in a sub-select step
@@ -44,7 +47,7 @@ Single == {[shape |-> "single", body |-> b, alias |-> a] :
                     "cte-chained", "cte-chained-only", "exists-correlated", "in-correlated", "scalar-correlated", "exists-correlated-shadow"},
              a \in {"none", "table-alias", "alias-is-integration-name", "column-named-like-integration", "qualified-columns"}}
 
-Cases == IF Family = "federated" THEN Join2 \cup Join3 \cup InSub \cup SetOp \cup Cte \cup CteShadow \cup Api \cup Nested \cup Scalar ELSE Single
+Cases == IF Family = "federated" THEN Join2 \cup Join3 \cup InSub \cup SetOp \cup SetOp3 \cup Cte \cup CteShadow \cup Api \cup Nested \cup Scalar ELSE Single
 Init == c \in Cases
 Next == UNCHANGED c
 Spec == Init /\ [][Next]_c
